@@ -248,6 +248,132 @@ func blockingPhase(o *common.Opts, scenarios int) (done, pops, pushes int, divs 
 		}(s)
 	}
 	wg.Wait()
+	// one queue that keeps running empty: producers, plain poppers and many blocking poppers (which re-examine the
+	// list every 100 ms while they wait) all at once. Every acknowledged element must be popped exactly once or be
+	// left in the list.
+	if !srv.Exited() {
+		const producers, plain, blocking = 2, 4, 128
+		key := fmt.Sprintf("bq:churn:%d", o.Seed)
+		stopAt := time.Now().Add(time.Duration(o.Pick(3500, 15000)) * time.Millisecond)
+		var cmu sync.Mutex
+		pushedN := 0
+		popped := map[string]int{}
+		var cwg sync.WaitGroup
+		connErr := ""
+		for p := 0; p < producers; p++ {
+			cwg.Add(1)
+			go func(p int) {
+				defer cwg.Done()
+				c, err := respc.Dial(srv.Addr, 30*time.Second)
+				if err != nil {
+					return
+				}
+				defer c.Close()
+				n := 0
+				for i := 0; time.Now().Before(stopAt); i++ {
+					if v, err := c.Do("RPUSH", key, fmt.Sprintf("p%d-%d", p, i)); err != nil || v.Kind != ':' {
+						cmu.Lock()
+						connErr = fmt.Sprintf("RPUSH failed: %v %s", err, v.String())
+						cmu.Unlock()
+						break
+					}
+					n++
+					if i%8 == 7 {
+						time.Sleep(300 * time.Microsecond) // let the consumers drain the queue
+					}
+				}
+				cmu.Lock()
+				pushedN += n
+				cmu.Unlock()
+			}(p)
+		}
+		consumer := func(block bool) {
+			defer cwg.Done()
+			c, err := respc.Dial(srv.Addr, 30*time.Second)
+			if err != nil {
+				return
+			}
+			defer c.Close()
+			mine := map[string]int{}
+			for time.Now().Before(stopAt.Add(300 * time.Millisecond)) {
+				var v respc.Value
+				var err error
+				if block {
+					v, err = c.Do("BLPOP", key, "1")
+				} else {
+					v, err = c.Do("LPOP", key)
+				}
+				if err != nil {
+					break
+				}
+				switch {
+				case v.Nil:
+					if !block {
+						time.Sleep(200 * time.Microsecond)
+					}
+				case block && v.Kind == '*' && len(v.Arr) == 2:
+					mine[string(v.Arr[1].Str)]++
+				case !block && v.Kind == '$':
+					mine[string(v.Str)]++
+				}
+			}
+			cmu.Lock()
+			for e, n := range mine {
+				popped[e] += n
+			}
+			cmu.Unlock()
+		}
+		for i := 0; i < plain; i++ {
+			cwg.Add(1)
+			go consumer(false)
+		}
+		for i := 0; i < blocking; i++ {
+			cwg.Add(1)
+			go consumer(true)
+		}
+		cwg.Wait()
+		if c, err := respc.Dial(srv.Addr, 30*time.Second); err == nil && connErr == "" && !srv.Exited() {
+			left := map[string]int{}
+			if v, err := c.Do("LRANGE", key, "0", "-1"); err == nil {
+				for _, e := range v.Arr {
+					left[string(e.Str)]++
+				}
+			}
+			c.Close()
+			lost, dup, total := 0, 0, 0
+			example := ""
+			for e, n := range popped {
+				total += n
+				if n+left[e] > 1 {
+					dup++
+					example = e
+				}
+			}
+			accounted := 0
+			for e := range popped {
+				if popped[e]+left[e] >= 1 {
+					accounted++
+				}
+			}
+			for e := range left {
+				if popped[e] == 0 {
+					accounted++
+				}
+			}
+			lost = pushedN - accounted
+			mu.Lock()
+			pops += total
+			pushes += pushedN
+			done++
+			mu.Unlock()
+			if lost > 0 {
+				report("blocking|churn-element-lost", fmt.Sprintf("queue %q with %d producers, %d LPOP and %d BLPOP consumers: %d of %d acknowledged elements were neither popped by anybody nor left in the list", key, producers, plain, blocking, lost, pushedN), nil)
+			}
+			if dup > 0 {
+				report("blocking|churn-element-delivered-twice", fmt.Sprintf("queue %q: %d elements were delivered more than once (e.g. %q)", key, dup, example), nil)
+			}
+		}
+	}
 	if srv.Exited() {
 		report("blocking|server-exited", "server exited: "+srv.CrashLine(), nil)
 	}
